@@ -1,10 +1,206 @@
-import AcraModel.Basic.Bytes
-/-! Driver ops for C02. -/
+import AcraModel.CrossClient.Reveal
+import AcraModel.CrossClient.Hash
+import AcraModel.CrossClient.Context
+import AcraModel.CrossClient.Token
+import AcraModel.CrossClient.Tls
+import AcraModel.CrossClient.Keys
+import AcraModel.Crypto.Shim
+import Driver.C01
+/-! Driver ops for C02: every reveal-type entry point run under a chosen identity of a key store with
+several identities, the TLS wrapper, token histories, key contexts of both key store formats. -/
 namespace Driver.C02
-open AcraModel
+open AcraModel AcraModel.Envelope AcraModel.CrossClient Driver.C01
+
+def C := shimOps
+
+/-- one identity of the line: id, key view, HMAC key -/
+structure Ident where
+  id : Bytes
+  kv : KeyView
+  hmac : Option Bytes
+
+def noKeys : KeyView := { pub := none, privs := none, sym := none, syms := none }
+
+/-- `n (id pub privs sym syms hmac)×n` -/
+def parseIdents : Nat → List String → Option (List Ident × List String)
+  | 0, rest => some ([], rest)
+  | n + 1, id :: pub :: privs :: sym :: syms :: hm :: rest => do
+    let i : Ident := { id := ← ofHex id, kv := ← parseKV pub privs sym syms, hmac := ← parseOpt hm }
+    let (is, rest') ← parseIdents n rest
+    pure (i :: is, rest')
+  | _, _ => none
+
+def storeOfIdents (is : List Ident) : Store := fun id =>
+  match is.find? (·.id == id) with
+  | some i => i.kv
+  | none => noKeys
+
+def hmacOfIdents (is : List Ident) : HmacStore := fun id =>
+  match is.find? (·.id == id) with
+  | some i => i.hmac
+  | none => none
+
+def searchStr (grpc : Bool) : SearchOut → String
+  | .ok m => s!"ok {hexOf m}"
+  | .errBack _ => if grpc then "err" else "errback"
+  | .err => "err"
+  | .panic => "panic"
+
+/-- run one entry point under identity `id` -/
+def runEntry (entry : String) (is : List Ident) (id : Bytes) (k : Kind) (data : Bytes) (hash : Option Bytes) (grpc : Bool) : Option String :=
+  let ks := storeOfIdents is
+  match entry with
+  | "lib" => some (outHex (revealAs C ks id data))
+  | "tr.decrypt" =>
+    -- `len(clientID) == 0` (Decrypt) / `clientID == nil` (DecryptSym, unreachable from the harness) is an error
+    if id.isEmpty && k == .struct then some "err" else some (outHex (decryptAs C ks id k data))
+  | "tr.search" => some (searchStr grpc (decryptSearchable C (ks id) (hmacOfIdents is id) k data hash))
+  | "col" => some (scanStr (columnAs C ks id data))
+  | "colcompat" => some (scanStr (columnCompatAs C ks id data))
+  | "hash.verify" =>
+    match hash with
+    | none => none
+    | some h =>
+      match extractHashAndData h with
+      | none => some "nohash"
+      | some (hp, _) => some (toString (hashVerifyAs C (hmacOfIdents is) id hp data))
+  | _ => none
+
+def rpcEntry (rpc : String) : Option (String × Kind) :=
+  match rpc with
+  | "Decrypt" => some ("tr.decrypt", .struct)
+  | "DecryptSym" => some ("tr.decrypt", .block)
+  | "DecryptSearchable" => some ("tr.search", .struct)
+  | "DecryptSymSearchable" => some ("tr.search", .block)
+  | _ => none
+
+def parsePurpose (s : String) : Option V1Purpose :=
+  match s with
+  | "private" => some .storagePrivate
+  | "sym" => some .storageSym
+  | "hmac" => some .searchHmac
+  | _ => none
+
+def parseRing (s : String) : Option V2Ring :=
+  match s with
+  | "private" => some .storage
+  | "sym" => some .storageSym
+  | "hmac" => some .hmacSym
+  | _ => none
+
+def parseV2Kind (s : String) : Option V2Kind :=
+  match s with
+  | "private" => some .privateKey
+  | "sym" => some .symmetricKey
+  | _ => none
+
+def optOut : Option Bytes → String
+  | some b => "ok " ++ hexOf b
+  | none => "err"
+
+/-- split the random stream into the candidates the anonymizer draws for a value of `len` bytes -/
+def candidates (len : Nat) (rnd : Bytes) : Nat → List Bytes
+  | 0 => []
+  | fuel + 1 => if rnd.length < len then [] else rnd.take len :: candidates len (rnd.drop len) fuel
+
+def parseTokOps : Nat → List String → Option (List TokOp)
+  | 0, [] => some []
+  | n + 1, id :: v :: ty :: rnd :: rest => do
+    let v ← ofHex v
+    let op : TokOp := { id := ← ofHex id, v := v, ty := ← ty.toNat?, cands := candidates v.length (← ofHex rnd) loopLimit }
+    let ops ← parseTokOps n rest
+    pure (op :: ops)
+  | _, _ => none
+
+/-- run the history and collect each request's token (`-err-` for a failed request) -/
+def runTokCollect (st : TokStore) : List TokOp → TokStore × List String
+  | [] => (st, [])
+  | op :: ops =>
+    match tokenize C st op.id op.v op.ty op.cands with
+    | .ok (st', t) =>
+      let (s, r) := runTokCollect st' ops
+      (s, hexOf t :: r)
+    | _ =>
+      let (s, r) := runTokCollect st ops
+      (s, "-err-" :: r)
 
 def handle (op : String) (args : List String) : Option String :=
   match op, args with
+  -- as entry idx kind data hash n idents…
+  | "as", entry :: idx :: kind :: data :: hash :: n :: rest => do
+      let (is, tail) ← parseIdents (← n.toNat?) rest
+      if !tail.isEmpty then none
+      let i ← is[(← idx.toNat?)]?
+      runEntry entry is i.id (← parseKind kind) (← ofHex data) (← parseOpt hash) false
+  -- asks handle entry idx kind data hash n idents… : the same; the implementation runs it on the real key store `handle`
+  | "asks", _ :: entry :: idx :: kind :: data :: hash :: n :: rest => do
+      let (is, tail) ← parseIdents (← n.toNat?) rest
+      if !tail.isEmpty then none
+      let i ← is[(← idx.toNat?)]?
+      runEntry entry is i.id (← parseKind kind) (← ofHex data) (← parseOpt hash) false
+  -- grpc.plain rpc forged data hash n idents… : the gRPC service without the TLS wrapper
+  | "grpc.plain", rpc :: forged :: data :: hash :: n :: rest => do
+      let (is, tail) ← parseIdents (← n.toNat?) rest
+      if !tail.isEmpty then none
+      let (entry, k) ← rpcEntry rpc
+      -- `request.ClientId == nil` is rejected by the searchable sym RPC; a nil id finds no keys anywhere else
+      match ← parseOpt forged with
+      | none => pure "err"
+      | some f => runEntry entry is f k (← ofHex data) (← parseOpt hash) true
+  | "hash.gen", [key, data] => do pure (hexOf (generateHash C (← ofHex key) (← ofHex data)))
+  -- grpc rpc conn forged data hash n idents…   (conn = `none` when the context carries no peer)
+  | "grpc", rpc :: conn :: forged :: data :: hash :: n :: rest => do
+      let (is, tail) ← parseIdents (← n.toNat?) rest
+      if !tail.isEmpty then none
+      let (entry, k) ← rpcEntry rpc
+      let row ← rpcTable.find? (·.name == rpc)
+      let data ← ofHex data
+      let hash ← parseOpt hash
+      let svc : Request → Option String := fun r => runEntry entry is r.clientId k r.payload hash true
+      let forged ← parseOpt forged
+      wrapperMethod row svc (some "err") (← parseOpt conn) ⟨forged.getD [], data⟩
+  -- tok.run qid qtok ty n (id v ty rnd)×n
+  | "tok.run", qid :: qtok :: qty :: n :: rest => do
+      let ops ← parseTokOps (← n.toNat?) rest
+      let (st, toks) := runTokCollect [] ops
+      let d := detokenize C st (← ofHex qid) (← ofHex qtok) (← qty.toNat?)
+      pure s!"{if toks.isEmpty then "_" else ",".intercalate toks} {outHex d}"
+  -- keys.view handle what id n (owner key)×n : the keys of `id` in a generation history (newest first)
+  | "keys.view", _ :: _ :: id :: n :: rest => do
+      let n ← n.toNat?
+      if rest.length ≠ 2 * n then none
+      let rec go : List String → Option History
+        | o :: k :: t => do pure (⟨← ofHex o, ← ofHex k⟩ :: (← go t))
+        | [] => some []
+        | _ => none
+      let h ← go rest
+      let ks := keysOf h (← ofHex id)
+      pure (if ks.isEmpty then "_" else ",".intercalate (ks.map hexOf))
+  | "ctx.v1.open", [master, purpose, id, blob] => do
+      pure (optOut (keyDecrypt C (← ofHex master) (v1Context (← parsePurpose purpose) (← ofHex id)) (← ofHex blob)))
+  | "ctx.v1.name", [purpose, id] => do
+      pure (hexOf (v1FileName (← parsePurpose purpose) (← ofHex id)))
+  | "ctx.v2.open", [master, path, kind, seq, blob] => do
+      pure (optOut (v2KeyDecrypt C (← ofHex master) (← ofHex path) (← parseV2Kind kind) (← seq.toNat?) (← ofHex blob)))
+  | "ctx.v2.path", [ring, id] => do
+      pure (hexOf (v2RingPath (← parseRing ring) (← ofHex id)))
+  -- ks1.loadas handle purpose from purpose' to master blob : copy the key file of (purpose, from) to the name of (purpose', to), load it
+  | "ks1.loadas", [_, p, frm, p', to, master, blob, _, _] => do
+      let p ← parsePurpose p
+      let p' ← parsePurpose p'
+      let frm ← ofHex frm
+      let to ← ofHex to
+      let fs : Files := [(v1FileName p frm, ← ofHex blob)]
+      pure (optOut (v1Load C (← ofHex master) (fs.copy (v1FileName p frm) (v1FileName p' to)) p' to))
+  -- ks2.loadas handle ring from ring' to sigkey payload sig : copy the ring file to the other path, open it there
+  | "ks2.loadas", [_, r, frm, r', to, sigKey, payload, sig, _, _] => do
+      let _ ← parseRing r
+      let _ ← ofHex frm
+      let path' := v2RingPath (← parseRing r') (← ofHex to)
+      if v2Sign C (← ofHex sigKey) path' (← ofHex payload) == (← ofHex sig) then pure "signature-accepted" else pure "err"
+  -- ks2.sig sigkey path payload : the ring signature the model expects
+  | "ks2.sig", [sigKey, path, payload] => do
+      pure (hexOf (v2Sign C (← ofHex sigKey) (← ofHex path) (← ofHex payload)))
   | _, _ => none
 
 end Driver.C02
